@@ -751,6 +751,153 @@ RECURSION = [
 ]
 
 
+# ----------------------------------------------------------------------------- exploration: coroutine life-cycle abuse
+# program = CTX (where the action runs: body / __close handler(s) / __gc / message handler / nested pcall with pending close)
+#         x VIA (how the action is reached: directly or through a metamethod, iterator, sort comparator, gsub callback, load reader,
+#                inner coroutine.wrap; or instead of yielding: close/resume the coroutine itself, close the running coroutine)
+#         x ACT (yield under pcall / bare yield / raise an error)
+#         x END (how coroutine A finishes) x RES (who resumes A and what happens to the resumer) ; then A is resumed 4 more times from
+# main and closed.  Only C04's predicate is asserted: the process survives and the script ends ok / error / killed.
+CO_ACT = {"pyield": "pcall(coroutine.yield, 'y')", "yield": "coroutine.yield('y')", "error": "error('act')",
+          "yield2": "coroutine.yield(coroutine.yield('y1'))"}
+CO_VIA = {
+    "direct": "ACT",
+    "index": "local _ = setmetatable({}, {__index = function() return ACT end}).k",
+    "newindex": "setmetatable({}, {__newindex = function() ACT end}).k = 1",
+    "add": "local _ = setmetatable({}, {__add = function() return ACT end}) + 1",
+    "concat": "local _ = setmetatable({}, {__concat = function() return ACT end}) .. 'x'",
+    "eq": "local mt = {__eq = function() return ACT end} local _ = setmetatable({}, mt) == setmetatable({}, mt)",
+    "lt": "local mt = {__lt = function() return ACT end} local _ = setmetatable({}, mt) < setmetatable({}, mt)",
+    "len": "local _ = #setmetatable({}, {__len = function() return ACT end})",
+    "call": "setmetatable({}, {__call = function() return ACT end})()",
+    "tostring": "tostring(setmetatable({}, {__tostring = function() ACT return 'x' end}))",
+    "iter": "for _ in function() ACT return nil end do end",
+    "pairs": "for _ in pairs(setmetatable({}, {__pairs = function(t) ACT return next, t, nil end})) do end",
+    "sort": "table.sort({3, 2, 1}, function(a, b) ACT return a < b end)",
+    "gsub": "string.gsub('ab', '.', function(c) ACT return c end)",
+    "load": "load(function() ACT return nil end)",
+    "wrapinner": "coroutine.wrap(function() ACT end)()",
+    "closeself": "coroutine.close(A)",
+    "closerunning": "coroutine.close(coroutine.running())",
+    "resumeself": "coroutine.resume(A)",
+    "resumerunning": "coroutine.resume(coroutine.running())",
+    "wrapreenter": "local w w = coroutine.wrap(function() w() ACT end) w()",
+    "statusabuse": "coroutine.isyieldable() local _ = coroutine.status(A) ACT",
+}
+CO_CTX = {
+    "body": "V()",
+    "close": "local x <close> = setmetatable({}, {__close = function() V() end})",
+    "close2": "local x <close> = setmetatable({}, {__close = function() V() end}) local y <close> = setmetatable({}, {__close = function() V() error('h') end})",
+    "gc": "setmetatable({}, {__gc = function() V() end}) pcall(collectgarbage) pcall(collectgarbage)",
+    "msgh": "xpcall(function() error('m') end, function(e) V() return e end)",
+    "pcallclose": "pcall(function() local x <close> = setmetatable({}, {__close = function() V() end}) error('in') end)",
+    "nestedco": "local I = coroutine.create(function() local x <close> = setmetatable({}, {__close = function() V() end}) error('inner') end) coroutine.resume(I) coroutine.resume(I)",
+}
+CO_END = {"return": "return 1", "error": "error('boom')", "yielderror": "coroutine.yield('mid') error('late')",
+          "errobj": "error(setmetatable({}, {__tostring = function() return 'eo' end}))"}
+CO_RES = {
+    "main": "pcall(R, A)",
+    "Bdies": "local B = coroutine.create(function() return R(A) end) pcall(coroutine.resume, B)",
+    "Berrors": "local B = coroutine.create(function() R(A) error('b') end) pcall(coroutine.resume, B)",
+    "Bwrap": "pcall(coroutine.wrap(function() return R(A) end))",
+    "Byields": "local B = coroutine.create(function() R(A) coroutine.yield('b') R(A) end) pcall(coroutine.resume, B) pcall(R, A) pcall(coroutine.resume, B)",
+    "chain": "local B = coroutine.create(function() return R(A) end) local C = coroutine.create(function() return coroutine.resume(B) end) pcall(coroutine.resume, C)",
+    "Bcloses": "local B = coroutine.create(function() R(A) return coroutine.close(A) end) pcall(coroutine.resume, B)",
+    "normalclose": "local B = coroutine.create(function() return coroutine.close(A), coroutine.resume(A) end) A = coroutine.create(function() coroutine.resume(B) BODY end) pcall(R, A)",
+}
+
+
+def co_program(ctx, via, act, end, res, wrap=False):
+    v = CO_VIA[via].replace("ACT", CO_ACT[act])
+    body = "local function V() %s end %s %s" % (v, CO_CTX[ctx], CO_END[end])
+    r = CO_RES[res].replace("BODY", body)
+    src = ("local A local R = coroutine.resume "
+           "A = coroutine.create(function() %s end) " % body)
+    if wrap:
+        src = ("local A, W local function R(co) return W() end "
+               "W = coroutine.wrap(function() A = coroutine.running() %s end) " % body)
+    src += r + " for i = 1, 4 do pcall(R, A) end pcall(coroutine.close, A) pcall(collectgarbage) return 'alive'"
+    return src
+
+
+def gen_coroutines(rng, tier):
+    out = []
+    seen = set()
+
+    def add(ctx, via, act, end, res, wrap):
+        key = (ctx, via, act, end, res, wrap)
+        if key in seen or (wrap and res == "normalclose"):
+            return
+        seen.add(key)
+        out.append(("%s/%s/%s/%s/%s%s" % (ctx, via, act, end, res, "/wrap" if wrap else ""), co_program(*key)))
+    import itertools
+    # always: every ctx x act x end x res with the direct action and with the self-referential coroutine calls
+    for ctx, act, end, res in itertools.product(CO_CTX, CO_ACT, CO_END, CO_RES):
+        add(ctx, "direct", act, end, res, False)
+    for ctx, via, end, res in itertools.product(CO_CTX, ("closeself", "closerunning", "resumeself", "resumerunning", "wrapreenter"), CO_END, CO_RES):
+        add(ctx, via, "pyield", end, res, False)
+    # every via at least once per ctx
+    for ctx, via in itertools.product(CO_CTX, CO_VIA):
+        add(ctx, via, "pyield", "error", "Bdies", False)
+        add(ctx, via, "yield", "return", "main", False)
+    allk = list(itertools.product(CO_CTX, CO_VIA, CO_ACT, CO_END, CO_RES, (False, True)))
+    if tier == "quick":
+        for _ in range(500):
+            add(*allk[rng.below(len(allk))])
+    else:
+        for k in allk:
+            add(*k)
+    return out
+
+
+# Explicit panic( sites of /repo/runtime/*.go (file, text after "panic(") -> (class, the program family aiming at it).
+# Re-grepped on every run; a site missing from this table is written to evidence as UNCOVERED.
+PANIC_SITES = {
+    ("gofunction.go", '"Invalid safety flags")'): ("go-api-only", "SolemnlyDeclareCompliance is not reachable from Lua"),
+    ("loadunit.go", '"Unsupported constant type")'): ("compiler-output-only", "static check of every compiled unit (constants are produced by ircomp only)"),
+    ("luacont.go", '"Closure not ready")'): ("ill-formed-bytecode-only", "check_code on every compiled unit; binary chunks are outside C04's statement (text chunks), owned by C13"),
+    ("luacont.go", '"unsupported")'): ("ill-formed-bytecode-only", "check_code (a_supported) on every compiled unit; enc correspondence of every opcode type"),
+    ("luacont.go", '"Unsupported opcode")'): ("ill-formed-bytecode-only", "check_code (a_supported) on every compiled unit"),
+    ("luacont.go", '"should be a cell")'): ("ill-formed-bytecode-only", "check_code (a_cellonly) on every compiled unit"),
+    ("marshal.go", "budgetConsumed)"): ("internal-recovered", "recovered inside marshal.go (C13); library sweep calls string.dump/load under limits"),
+    ("runtime.go", "r)"): ("re-panic", "Runtime.Close re-panics a foreign panic: every gopanic family"),
+    ("runtimecontextmanager.go", "ContextTerminationError{"): ("termination", "recovered by CallContext: explosion templates (rec:mem, rec:lua), killed outcomes of every stream"),
+    ("runtimecontextmanager_noquotas.go", "ContextTerminationError{"): ("termination", "noquotas build only"),
+    ("thread.go", "r)"): ("re-panic", "coroutine goroutine / CallContext re-panic a foreign panic: coroutine family (a Go panic inside a coroutine kills the process)"),
+    ("thread.go", '"Caller of thread to resume is not running")'): ("coroutine-protocol", "coroutine family: resumeself/resumerunning/gc/close ctx, resumer shapes"),
+    ("thread.go", '"Caller of thread to close is not running")'): ("coroutine-protocol", "coroutine family: closeself/closerunning/Bcloses/normalclose, gc ctx"),
+    ("thread.go", '"Thread to yield is not running")'): ("coroutine-protocol", "coroutine family: yields from gc/close/msgh ctx, wrapinner"),
+    ("thread.go", '"Caller of thread to yield is not OK")'): ("coroutine-protocol", "coroutine family: yields after the resumer died (Bdies/Berrors/chain)"),
+    ("thread.go", '"Called Thread.end on a non-running thread")'): ("coroutine-protocol", "coroutine family: closeself/closerunning from handlers while ending"),
+    ("thread.go", '"Caller thread of ending thread is not OK")'): ("coroutine-protocol", "coroutine family: close ctx x yield x end=error x Bdies/Berrors/chain (resumer died while the coroutine was ending)"),
+    ("thread.go", "res.exception)"): ("termination", "forwarding of a termination from a coroutine to its resumer: kill templates inside coroutines (co_nest, co_many)"),
+    ("value.go", '"value is not a continuation")'): ("ill-formed-bytecode-only", "check_code on every compiled unit (register typing itself is not modelled)"),
+    ("value.go", '"value is not a Callable")'): ("ill-formed-bytecode-only", "AsCallable is used after TryCallable checks; check_code on every compiled unit"),
+}
+
+
+def panic_inventory(ck):
+    rows, unc = [], 0
+    d = os.path.join(vlib.REPO, "runtime")
+    for fn in sorted(os.listdir(d)):
+        if not fn.endswith(".go") or fn.endswith("_test.go") or fn.startswith("verif_"):
+            continue
+        for ln, line in enumerate(open(os.path.join(d, fn), errors="replace"), 1):
+            m = re.search(r"\bpanic\((.*)$", line.strip())
+            if not m or line.strip().startswith("//"):
+                continue
+            key = (fn, m.group(1).strip())
+            cls, fam = PANIC_SITES.get(key, ("UNCOVERED", "no family aims at this site yet"))
+            if cls == "UNCOVERED":
+                unc += 1
+                ck.log("UNCOVERED panic site: runtime/%s:%d panic(%s" % (fn, ln, m.group(1).strip()))
+            rows.append({"site": "runtime/%s:%d" % (fn, ln), "panic": m.group(1).strip()[:80], "class": cls, "aimed_at_by": fam})
+    ck.cov["panic_sites"] = rows
+    ck.cov["panic_sites_uncovered"] = unc
+    ck.count("panic-sites", len(rows))
+    ck.count("panic-sites-uncovered", unc)
+
+
 # ----------------------------------------------------------------------------- running Lua cases
 class LuaRunner:
     def __init__(self, ck, binary):
@@ -1287,6 +1434,34 @@ def explore(ck, lr, tier):
         ck.case("rec " + src, True)
         ck.count("rec:%s:%s" % (fam, res["status"]))
         bad_total += judge(ck, lr, fam if fam == "meta" else "rec", label, src.encode(), None, res, rl[i], quick)
+
+    # ---- (d) coroutine life-cycle abuse
+    cos = gen_coroutines(ck.rng, tier)
+    ck.log("coroutine family: %d programs" % len(cos))
+    # collectgarbage is refused in a limited context, so the programs whose action runs in a __gc handler run without limits
+    # (the watchdog remains); all others under CPU and memory limits
+    cl = ["k%d %s %s" % (i, lua_hex(src), "" if label.startswith("gc/") else "cpu=20000000 mem=200000000") for i, (label, src) in enumerate(cos)]
+    couts = lr.run(cl, timeout=(20 if quick else 120), batch=400)
+    ncobad = 0
+    for i, (label, src) in enumerate(cos):
+        res = parse_lua(couts[i]) if i < len(couts) else {"status": "?"}
+        ck.case("co " + src, True)
+        ck.count("co:%s:%s" % (label.split("/")[0], res["status"]))
+        if res["status"] in ("gopanic", "CRASH", "HANG", "?"):
+            # alone in a fresh child first (a dying child takes the next case with it)
+            o = lr.run([cl[i]], timeout=60)
+            r1 = parse_lua(o[0])
+            if r1["status"] not in ("gopanic", "CRASH", "HANG", "?"):
+                ck.count("co:not-reproduced-alone")
+                continue
+            ncobad += 1
+            bad_total += 1
+            if ncobad <= 5:
+                ck.violation("coroutine program kills or hangs the host: %s -> %s %s" % (label, r1["status"], r1.get("msg", "")[:160].replace("\n", " | ")),
+                             {"kind": "Go!=S", "engine": "lua", "family": "coroutine", "label": label, "status": r1["status"],
+                              "message": r1.get("msg", "")[:1500], "source": src, "opts": " ".join(cl[i].split(" ")[2:])})
+    ck.cov["coroutine_bad"] = ncobad
+    panic_inventory(ck)
     ck.cov["bad_outcomes"] = bad_total
 
 
